@@ -11,6 +11,7 @@ use serde::{Deserialize, Serialize};
 use serde_json::json;
 use std::collections::HashMap;
 use tower::{Layer, Service};
+use std::sync::Arc;
 use tower_resilience_coalesce::{CoalesceError, CoalesceLayer};
 
 #[derive(Clone, Debug, Serialize, Deserialize)]
@@ -31,6 +32,20 @@ pub struct CoCaller {
 pub struct CoCase {
     pub callers: Vec<CoCaller>,
     pub order: Vec<u8>,
+    /// when set, the case is a burst of simultaneous arrivals on different OS threads whose
+    /// `call()`s are interleaved at the lock acquisitions of the in-flight map (schedule engine)
+    #[serde(default)]
+    pub burst: Option<Burst>,
+}
+
+#[derive(Clone, Debug, Serialize, Deserialize)]
+pub struct Burst {
+    /// key of each request (one thread per request)
+    pub keys: Vec<u32>,
+    /// inner outcome per key: ok or error
+    pub ok: bool,
+    /// choices of the baton scheduler (see sched::explore)
+    pub schedule: Vec<u8>,
 }
 
 fn case_strategy(tier: Tier) -> BoxedStrategy<CoCase> {
@@ -59,12 +74,29 @@ fn case_strategy(tier: Tier) -> BoxedStrategy<CoCase> {
             cancel_after,
             hold_after,
         });
-    (
+    let history = (
         prop::collection::vec(caller, 2..=hi),
         prop::collection::vec(any::<u8>(), 0..=48),
     )
-        .prop_map(|(callers, order)| CoCase { callers, order })
-        .boxed()
+        .prop_map(|(callers, order)| CoCase {
+            callers,
+            order,
+            burst: None,
+        });
+    let burst = (
+        prop::collection::vec(prop_oneof![3 => Just(0u32), 1 => 0u32..2], 2..=4),
+        any::<bool>(),
+        prop_oneof![
+            prop::collection::vec(prop_oneof![5 => 0u8..160, 1 => 160u8..=255], 0..=40),
+            prop::collection::vec(any::<u8>(), 0..=40),
+        ],
+    )
+        .prop_map(|(keys, ok, schedule)| CoCase {
+            callers: vec![],
+            order: vec![],
+            burst: Some(Burst { keys, ok, schedule }),
+        });
+    prop_oneof![12 => history, 1 => burst].boxed()
 }
 
 fn map_outcome(r: Result<Resp, CoalesceError<SErr>>) -> Outcome {
@@ -90,7 +122,131 @@ pub struct Verdict {
 }
 
 pub fn run_coalesce(case: &CoCase) -> Verdict {
-    sim::run_case(interp(case))
+    match &case.burst {
+        Some(b) => sim::run_case(burst(b)),
+        None => sim::run_case(interp(case)),
+    }
+}
+
+/// Simultaneous arrivals on different threads. Each thread makes one `call()` on its own clone of
+/// the service; the baton scheduler decides, at every acquisition of the in-flight map's mutex
+/// (hook: `verif-hooks`), which thread goes on. Afterwards all response futures are driven to
+/// completion on this thread. Oracle: per key exactly one inner call was started by the burst,
+/// and every request resolves with that call's result.
+async fn burst(b: &Burst) -> Verdict {
+    let mut violations = vec![];
+    let log = Log::new();
+    let ok = b.ok;
+    let inner = Scripted::new(log.clone(), 1, move |_, _, _| {
+        if ok {
+            Step::ok(5)
+        } else {
+            Step::err(5, 3)
+        }
+    });
+    let layer = CoalesceLayer::new(|r: &Req| r.key);
+    let base = layer.layer(inner.clone());
+    let n = b.keys.len();
+    type Fut = std::pin::Pin<Box<dyn std::future::Future<Output = Result<Resp, CoalesceError<SErr>>> + Send>>;
+    let slots: Arc<std::sync::Mutex<Vec<Option<Fut>>>> =
+        Arc::new(std::sync::Mutex::new((0..n).map(|_| None).collect()));
+    let now_ns = crate::vclock::now_ns();
+    let bodies: Vec<Box<dyn FnOnce() + Send>> = (0..n)
+        .map(|i| {
+            let mut svc = base.clone();
+            let slots = slots.clone();
+            let key = b.keys[i];
+            Box::new(move || {
+                // this thread's virtual clock starts where the caller's stands
+                crate::vclock::advance_ns(now_ns);
+                let req = Req {
+                    id: i as u32,
+                    key,
+                    tag: 0xB0B0 + i as u64,
+                };
+                let _ = svc.poll_ready(&mut std::task::Context::from_waker(
+                    futures::task::noop_waker_ref(),
+                ));
+                let fut: Fut = Box::pin(svc.call(req));
+                slots.lock().unwrap()[i] = Some(fut);
+            }) as Box<dyn FnOnce() + Send>
+        })
+        .collect();
+    let outcome = crate::sched::explore(bodies, &b.schedule, |_| None);
+    if let Some(p) = &outcome.panic {
+        violations.push(format!("call() panicked in the burst: {p}"));
+    }
+    // who started an inner call
+    let snap0 = log.snapshot();
+    let mut leader_serial: HashMap<u32, Vec<u64>> = HashMap::new();
+    for e in &snap0 {
+        if let Ev::Enter { serial, req, .. } = e {
+            leader_serial.entry(req.key).or_default().push(*serial);
+        }
+    }
+    let mut keys: Vec<u32> = b.keys.clone();
+    keys.sort_unstable();
+    keys.dedup();
+    for k in &keys {
+        let started = leader_serial.get(k).map_or(0, |v| v.len());
+        let members = b.keys.iter().filter(|x| *x == k).count();
+        if started != 1 {
+            violations.push(format!(
+                "{members} requests for key {k} arrived together on different threads and {started} inner calls were started for that key (schedule {:?})",
+                outcome.trace
+            ));
+        }
+    }
+    // drive the futures
+    let mut sim = Sim::new(log.clone(), vec![]);
+    let futs: Vec<Option<Fut>> = std::mem::take(&mut *slots.lock().unwrap());
+    let mut task = vec![None; n];
+    for (i, f) in futs.into_iter().enumerate() {
+        if let Some(f) = f {
+            task[i] = Some(sim.spawn_call(f, map_outcome));
+        }
+    }
+    sim.settle().await;
+    sim.advance(12).await;
+    let snap = log.snapshot();
+    if violations.is_empty() {
+        for i in 0..n {
+            let Some(tk) = task[i] else {
+                violations.push(format!("request {i}: call() produced no future"));
+                continue;
+            };
+            let resolve = snap.iter().find_map(|e| match e {
+                Ev::Resolve { task, out, .. } if *task == tk => Some(out.clone()),
+                _ => None,
+            });
+            let want = leader_serial[&b.keys[i]][0];
+            let good = match &resolve {
+                Some(Outcome::Ok { serial, req }) => b.ok && *serial == want && req.key == b.keys[i],
+                Some(Outcome::Inner { serial, .. }) => !b.ok && *serial == want,
+                _ => false,
+            };
+            if !good {
+                violations.push(format!(
+                    "request {i} (key {}) of a burst resolved with {resolve:?}; the one inner call for its key is number {want} ({})",
+                    b.keys[i],
+                    if b.ok { "ok" } else { "error" }
+                ));
+            }
+        }
+    }
+    for (t, msg) in &sim.unexpected_panics {
+        violations.push(format!("unexpected panic in task {t}: {msg}"));
+    }
+    let mut classes = vec!["burst_on_threads"];
+    if outcome.preemptions > 0 {
+        classes.push("burst_with_preemption_between_lock_acquisitions");
+    }
+    Verdict {
+        violations,
+        nontrivial: outcome.preemptions > 0 && b.keys.iter().filter(|k| **k == b.keys[0]).count() >= 2,
+        classes,
+        log: snap,
+    }
 }
 
 async fn interp(case: &CoCase) -> Verdict {
